@@ -17,7 +17,7 @@ import (
 func init() {
 	register(&Property{
 		ID:               "C20",
-		Patterns:         []string{"./services/httpd", "./auth"},
+		Patterns:         []string{"./services/httpd", "./auth", "./services/auth"},
 		ThoroughPatterns: []string{"./..."},
 		Run:              runC20,
 		Explanation: "Authorisation as structure: every route handler registered on the mux is authenticate(authorize|authorizeForward(route handler)) under the fixed wrapper chain and only addRawRoute registers; " +
@@ -32,6 +32,7 @@ func init() {
 
 func runC20(c *core.Ctx) {
 	c20Wiring(c)
+	c20CacheKey(c)
 	c.Rule("C20.route", "A6/A3: ServeMux.Handle is called only from addRawRoute (and the mux's own HandleFunc, which nobody calls); on every path the handler registered is wrappers*(authenticate(authorize|authorizeForward(<the route's handler>), h, requireAuth)) and requireAuth is false only when authentication is off or the route bypasses it with pprof exposed")
 	c.Rule("C20.authn", "A1: in authenticate's handler the inner handler is called exactly once on success paths: with AdminUser iff ¬requireAuthentication, else with the user returned by Authenticate/User/SubscriptionUser on that call's nil-error path; no inner call after an HttpError; a bearer token's user is served only on paths where the token's exp claim was found present and positive (the default arm is dead: every credentials.Method written in the package has a case)")
 	c.Rule("C20.authz", "A2: in authorize/authorizeForward the inner handler is called iff authorizeRequest(r,user) returned nil, with the same request (and user)")
